@@ -14,7 +14,8 @@ import inspect
 import os
 import types
 
-REPO_PKG = os.path.realpath('/repo/elementpath')
+REPO_ROOT = os.path.realpath(os.environ.get('VERIF_REPO', '/repo'))      # scratch copies for self-tests only; registered commands use /repo
+REPO_PKG = os.path.join(REPO_ROOT, 'elementpath')
 
 _file_cache: dict[str, tuple[str, ast.Module]] = {}
 
